@@ -9,7 +9,7 @@ sys.path.insert(0, os.path.dirname(os.path.dirname(os.path.abspath(__file__))))
 import vlib
 
 PID = "C33"
-THEOREM_MODULES = ["GuppyVerif.Props.C33", "GuppyVerif.Props.C33Closure"]
+THEOREM_MODULES = ["GuppyVerif.Props.C33", "GuppyVerif.Props.C33Closure", "GuppyVerif.Props.C33GateOrder"]
 DRIVER = "C33"
 RULE = (
     "case = (initial flag, program tree) over: bare enable/disable calls, `with enable/disable():` blocks, kept manager "
@@ -24,7 +24,9 @@ RULE = (
     "name, a global, own temporaries (possibly assigned before/after being read, possibly named like an outer local); each is "
     "printed as a Guppy program and checked by the real checker with the features off and on (accept / Capturing-closures "
     "rejection / IllegalAssignError) against Model/ClosureGate.lean and a positional Python oracle; non-trivial = a nested function "
-    "captures or has >1 statement"
+    "captures or has >1 statement. THIRD STREAM (gate before every other check): 26 degenerate / ill-formed instances of the gated "
+    "constructs in random statement contexts, features off => exactly the gate error, on => not the gate error; T-src table of all "
+    "gate call sites regenerated from the checker's AST every run (Gen/C33GateSites.lean)"
 )
 ASSUMPTIONS = [
     "CPython `with` statement semantics (manager expression evaluated first, __exit__ called on normal and exceptional exit, falsy return re-raises)",
@@ -40,7 +42,9 @@ MANIFEST = {
     "(gated_iff_flag); the model's whole observation trace equals that of an object-free scoping interpreter "
     "(trace_refines_spec) and, for programs made of with-blocks only, of a state-free lexical reading (inline_lexical); a nested "
     "function trips the closure gate iff it reads, before assigning it and not as a parameter, a local of the enclosing function "
-    "(closure_gated_iff_captures) whatever the types of the locals (closure_gate_ignores_types). "
+    "(closure_gated_iff_captures) whatever the types of the locals (closure_gate_ignores_types); every gate call site regenerated "
+    "from the checker sources is the first possibly-raising statement of its block, so ill-formed instances still get the gate "
+    "error (real_sites_gate_first, gate_precedes_other_errors). "
     "Model tied to /repo on every run by executing generated trees with the real context managers and real .check() "
     "calls on 11 feature-using programs, plus generated nested-function shapes checked with the features off/on (quick 200, thorough 4000) (quick 600 random trees; thorough all trees <=5 nodes x 2 flags + 30000 random).",
     "level_note": "Trusted: Lean kernel + propext/Classical.choice/Quot.sound; the hand-written model (correspondence is "
@@ -439,6 +443,59 @@ def _variants(p):
     return out
 
 
+# ----------------------------------------------------------------- T-src: where the gate sits in the checker (Gen/C33GateSites.lean)
+GATE_FILES = ["tys/builtin.py", "cfg/builder.py", "checker/func_checker.py", "checker/expr_checker.py"]
+GATE_FEATURE = {"check_lists_enabled": "lists", "check_function_tensors_enabled": "tensors",
+                "check_capturing_closures_enabled": "closures", "check_modifiers_enabled": "modifiers"}
+
+
+def _gate_sites():
+    """every call statement `check_<feature>_enabled(..)` in the checker: enclosing function and the number of statements
+    in front of it in the same block that are not plain assignments (so could raise a different user error first)"""
+    import ast
+
+    import bootstrap
+
+    sites = []
+    base = os.path.join(bootstrap.REPO, "guppylang-internals", "src", "guppylang_internals")
+    for rel in GATE_FILES:
+        tree = ast.parse(open(os.path.join(base, rel)).read())
+
+        def walk(node, qual):
+            for field in ("body", "orelse", "finalbody"):
+                block = getattr(node, field, None)
+                if not isinstance(block, list):
+                    continue
+                for i, st in enumerate(block):
+                    if (isinstance(st, ast.Expr) and isinstance(st.value, ast.Call) and isinstance(st.value.func, ast.Name)
+                            and st.value.func.id in GATE_FEATURE):
+                        before = [b for b in block[:i] if not isinstance(b, (ast.Assign, ast.AnnAssign, ast.Pass))
+                                  and not (isinstance(b, ast.Expr) and isinstance(b.value, ast.Constant))]
+                        sites.append((rel, qual, GATE_FEATURE[st.value.func.id], len(before)))
+                    q = qual + "." + st.name if isinstance(st, (ast.FunctionDef, ast.ClassDef)) else qual
+                    walk(st, q.lstrip("."))
+            for h in getattr(node, "handlers", []):
+                walk(h, qual)
+
+        walk(tree, "")
+    return sorted(sites)
+
+
+def translate(ctx):
+    sites = _gate_sites()
+    rows = ",\n   ".join(f'⟨"{f}", "{q}", .{feat}, {n}⟩' for f, q, feat, n in sites)
+    src = ("import GuppyVerif.Model.GateOrder\n"
+           "/-! GENERATED by harness/props/c33.py::translate from /repo's checker sources on every run: every call of a\n"
+           "    `check_*_enabled` gate, its enclosing function and how many possibly-raising statements precede it in its block. -/\n"
+           "namespace GuppyVerif.GateOrder.Gen\nopen GuppyVerif.GateOrder GuppyVerif.FeatureGate\n\n"
+           f"def sites : List Site :=\n  [{rows}]\n\nend GuppyVerif.GateOrder.Gen\n")
+    path = os.path.join(vlib.LEAN, "GuppyVerif", "Gen", "C33GateSites.lean")
+    if not os.path.exists(path) or open(path).read() != src:
+        with open(path, "w") as f:
+            f.write(src)
+    ctx.extra["gate_sites"] = [list(x) for x in sites]
+
+
 # ----------------------------------------------------------------- closure shapes (which nested functions trip the gate)
 # case = {"items": [["v", id] | ["f", id, how] | ["n", name, [params], [[assigned|None, [reads]], ...]]]}
 GLOBAL_FN = 99
@@ -657,9 +714,101 @@ def _closure_cases(ctx, n):
     return cases
 
 
+# ----------------------------------------------------------------- degenerate / ill-formed instances of every gated construct
+# The gate must come before every other check of the construct: with the features off these are all reported as experimental
+# features (never as the type error they also contain); with the features on they are accepted or get that other error.
+# (feature, name, extra defs, statement lines placed in a context)  /  (feature, name, whole program) when stmt is None
+DEGENERATE = [
+    ("lists", "empty_literal_statement", "", ["[]"]),
+    ("lists", "empty_literal_assigned", "", ["xs = []"]),
+    ("lists", "nested_empty_literal", "", ["xs = [[]]"]),
+    ("lists", "empty_literal_annotated", "", ["xs: list[int] = []"]),
+    ("lists", "comprehension_over_empty_literal", "", ["xs = [x for x in []]"]),
+    ("lists", "comprehension_over_empty_range", "", ["xs = [x for x in range(0)]"]),
+    ("lists", "comprehension_undefined_element", "", ["xs = [undefined_thing for x in range(3)]"]),
+    ("lists", "heterogeneous_literal", "", ["xs = [1, True]"]),
+    ("lists", "literal_of_empty_tuple", "", ["xs = [()]"]),
+    ("tensors", "tensor_called_without_arguments", "", ["t = (f1, f1)", "t()"]),
+    ("tensors", "tensor_called_with_wrong_types", "", ["t = (f1, f1)", "y = t(1.5, True)"]),
+    ("tensors", "tensor_of_one_function", "", ["t = (f1,)", "y = t(1)"]),
+    ("tensors", "tensor_too_many_arguments", "", ["t = (f1, f1)", "y = t(1, 2, 3)"]),
+    ("modifiers", "modifier_block_pass", "", ["with dagger:", "    pass"]),
+    ("modifiers", "modifier_block_as", "", ["with dagger as d:", "    pass"]),
+    ("modifiers", "with_non_modifier", "", ["with f1(1):", "    pass"]),
+    ("modifiers", "with_unknown_name", "", ["with nonsense:", "    pass"]),
+    ("modifiers", "power_zero", "", ["with power(0):", "    pass"]),
+    ("modifiers", "control_without_arguments", "", ["with control():", "    pass"]),
+    ("closures", "closure_assigning_captured", "", ["def g() -> int:", "    t = a", "    a = 2", "    return t"]),
+    ("closures", "closure_never_called", "", ["def g() -> int:", "    return a"]),
+    ("closures", "closure_wrong_return_type", "", ["def g() -> bool:", "    return a"]),
+    ("lists", "list_type_two_arguments", None, "@guppy\ndef main(a: int, b: bool, xs: list[int, int]) -> None:\n    pass\n"),
+    ("lists", "list_type_no_argument", None, "@guppy\ndef main(a: int, b: bool, xs: list) -> None:\n    pass\n"),
+    ("lists", "empty_literal_returned", None, "@guppy\ndef main(a: int, b: bool) -> list[int]:\n    return []\n"),
+    ("lists", "list_of_lists_type", None, "@guppy\ndef main(a: int, b: bool, xs: list[list[int]]) -> None:\n    pass\n"),
+]
+CONTEXTS = ["plain", "if", "else", "while", "after", "nested_if"]
+DEG_PRELUDE_EXTRA = ("from guppylang.std.quantum import qubit, h\n@guppy\ndef f1(x: int) -> int:\n    return x\n")
+
+
+def _deg_source(item, context):
+    feature, name, extra, stmts = item
+    if extra is None:
+        return stmts
+    ind = {"plain": 1, "if": 2, "else": 2, "while": 2, "after": 1, "nested_if": 3}[context]
+    head = {"plain": [], "if": ["    if b:"], "else": ["    if b:", "        pass", "    else:"], "while": ["    while b:"],
+            "after": ["    u = a + 1", "    v = u * 2"], "nested_if": ["    if b:", "        if a > 0:"]}[context]
+    body = ["    " * ind + ln for ln in stmts]
+    return "@guppy\ndef main(a: int, b: bool) -> None:\n" + "\n".join(head + body) + "\n"
+
+
+def _deg_tie(ctx, n_random):
+    import feed
+    import guppylang_internals.experimental as ex
+
+    cases = [(it, "plain") for it in DEGENERATE]
+    cases += [(ctx.rng.choice([it for it in DEGENERATE if it[2] is not None]), ctx.rng.choice(CONTEXTS)) for _ in range(n_random)]
+    if ctx.replay_in and "degenerate" in ctx.replay_in.get("replay", {}):
+        rn, rc = ctx.replay_in["replay"]["degenerate"]
+        cases = [(it, rc) for it in DEGENERATE if it[1] == rn] + cases
+    seen = set()
+    saved = ex.EXPERIMENTAL_FEATURES_ENABLED
+    try:
+        for it, context in cases:
+            feature, name = it[0], it[1]
+            key = f"{name}@{context if it[2] is not None else 'whole'}"
+            if key in seen:
+                continue
+            seen.add(key)
+            src = _deg_source(it, context)
+            m = feed.load(src, prelude=feed.PRELUDE + DEG_PRELUDE_EXTRA)
+            try:
+                for flag in (False, True):
+                    ex.EXPERIMENTAL_FEATURES_ENABLED = flag
+                    kind, e = feed.check_outcome(m.main)
+                    d = getattr(e, "error", None)
+                    cls = type(d).__name__ if d is not None else (type(e).__name__ if e is not None else None)
+                    is_gate = (kind == "user" and getattr(d, "things", None) == THINGS[feature]
+                               and cls == {"exp": "ExperimentalFeatureError", "uns": "UnsupportedError"}[EXPECTED_CLASS[feature]])
+                    real = "gate" if is_gate else ("crash:" + cls if kind == "crash" else "no-gate:" + (cls or "accepted"))
+                    want_gate = not flag
+                    ctx.count(f"deg {key} flag={int(flag)}", nontrivial=True, kind=f"degenerate:{feature}")
+                    if (real == "gate") != want_gate or real.startswith("crash"):
+                        ctx.violation(
+                            f"degenerate:{key}:{int(flag)}",
+                            f"{name} ({feature}, context {context}) with experimental features {'on' if flag else 'off'}: got {real}, "
+                            f"expected {'the experimental-feature error before any other check' if want_gate else 'no gate error'}\n{src}",
+                            {"degenerate": [name, context], "flag": flag, "real": real, "source": src},
+                        )
+            finally:
+                feed.unload(m)
+    finally:
+        ex.EXPERIMENTAL_FEATURES_ENABLED = saved
+
+
 def tie(ctx):
     _eval(ctx, _cases(ctx))
     _closure_tie(ctx, _closure_cases(ctx, ctx.n(200, 4000)))
+    _deg_tie(ctx, ctx.n(60, 600))
 
 
 def search(ctx, why):
@@ -667,6 +816,7 @@ def search(ctx, why):
     cases = [(ctx.rng.random() < 0.5, _rand_tree(ctx.rng, ctx.rng.choice([2, 3, 4]))) for _ in range(ctx.n(2000, 20000))]
     _eval(ctx, cases, use_model=False)
     _closure_tie(ctx, [_gen_closure(ctx.rng) for _ in range(ctx.n(500, 5000))], use_model=False)
+    _deg_tie(ctx, 600)
 
 
 if __name__ == "__main__":
